@@ -68,7 +68,7 @@ TRUSTED = [
 TECHNIQUE = ('Coq proof (induction over operation lists and request chains) about a Gallina program whose control flow is '
              'translated from src/pyramid/session.py on every run (harness/c10/translate.py, translate_factory.py), proved equal to a hand-written '
              'reference model; wrapper table regenerated from the class body; extracted-program differential correspondence')
-LEVEL_TEXT = ('Machine-checked theorems (71, closed under the global context; C10_chain_refines_spec_canonical carries only the '
+LEVEL_TEXT = ('Machine-checked theorems (75, closed under the global context; C10_chain_refines_spec_canonical carries only the '
               'unforgeability premise, the older chain theorems are _partial: see ASSUMPTIONS).  The program regenerated from session.py on this '
               'run (manage_accessed/manage_changed, changed, invalidate, flash, pop_flash, peek_flash, new_csrf_token, '
               'get_csrf_token, __init__, _set_cookie; wrappers chosen by the regenerated class table; and the factory layer: '
